@@ -226,7 +226,9 @@ def lattices(ctx):
                  ((unit, 0.0), (unit, 3 * unit))]))
     # ... and in units of 2^600 and 2^-600: every coordinate is an ordinary finite float, but
     # the *product* of two of them is not (a formula that multiplies before it divides)
-    for name, unit in (("vast", 2.0 ** 600), ("minute", 2.0 ** -600)):
+    # ... and in units of 2^-1030, where every coordinate is a *subnormal* float (gradual
+    # underflow keeps sums and differences exact; a reciprocal 1 / (x2 - x1) overflows)
+    for name, unit in (("vast", 2.0 ** 600), ("minute", 2.0 ** -600), ("subnormal", 2.0 ** -1030)):
         pts = [(x * unit, y * unit) for x, y in points]
         out.append((name, [(a, b) for a in pts for b in pts],
                     [((0.0, 0.0), (3 * unit, 3 * unit)), ((0.0, unit), (3 * unit, 2 * unit))]))
@@ -299,7 +301,7 @@ def run(ctx):
         "rule": "all segments with both endpoints on an 8x8 lattice (4096 per rectangle: every "
                 "region pair, grazing, vertical/horizontal/zero-length) x rectangles incl. zero-"
                 "height, zero-width and point; the same lattice in tenths, shifted by 1e6 and "
-                "scaled by 1e-3, by 2^-40 and by 2^600 / 2^-600; 10368 slivers (segments crossing an edge of a rectangle with non-zero edges at 2^-38 / 2^-45 from parallel, both orientations, all four edges); a seed-derived extra rectangle; thorough: all 225 rectangles with "
+                "scaled by 1e-3, by 2^-40, by 2^600 / 2^-600 and by 2^-1030 (subnormal coordinates); 10368 slivers (segments crossing an edge of a rectangle with non-zero edges at 2^-38 / 2^-45 from parallel, both orientations, all four edges); a seed-derived extra rectangle; thorough: all 225 rectangles with "
                 "corners on a 5x5 sub-lattice and all 100 on four tenths marks; non-trivial = the exact inside "
                 "part is a proper sub-segment (clipping shortened it); all cases distinct",
         "samples": core.rotate(part.samples, ctx.seed, 4),
